@@ -313,7 +313,7 @@ fn run_unit(tier: &str, unit: usize, out: &mut Out) {
     let alpha = alphabet();
     let k = alpha.len();
     let d = depth(tier);
-    let mut run = |w: &[usize], out: &mut Out| {
+    let run = |w: &[usize], out: &mut Out| {
         let word: Vec<Op> = w.iter().map(|i| alpha[*i]).collect();
         let (v, t) = judge(&word, w, tier);
         out.evaluations += 1;
